@@ -707,7 +707,7 @@ def w2(ctx, rep):
     """fresh pages only: inside a function that submits an ln/bbn page write, a PageNumber can only
     come from SyncAllocator::allocate or std plumbing over its results"""
     n = 0
-    writers = sorted({e.body.id for e in ctx.events if e.asyncio and e.cls in LNBBN})
+    writers = sorted({e.body.id.split("::{closure")[0] for e in ctx.events if e.asyncio and e.cls in LNBBN})
     rep.floor("W2 ln/bbn page writers", len(writers), 4)
     for fn in writers:
         bodies = [ctx.facts.bodies[fn]] + ctx.facts.closures_of(fn)
